@@ -95,6 +95,17 @@ def cases(tier, seed):
                                 if kind in ("skip(c)", "c->skip()", "stop(c)", "c->stop()", "c->advance(n)") and lay in ("plain", "interior-blank") and n_adv in (0, 2):
                                     # the same with an ordinary match component, placed first, that fails on the firing line
                                     yield {"scan": w, "comps": [NM] + comps, "mode": "AND"}, rows, {"kind": kind + "+unmatched-sibling", "K": K, "p": p, "fire": fire, "window": w, "layout": lay, "n": n_adv}
+    # two last() components in one csvpath: both fire, also when the file ends in a blank record
+    for K in (1, 2):
+        for w in WINDOWS:
+            for lay in LAYOUTS:
+                if lay == "blank-before-fire":
+                    continue
+                comps = [push(i) for i in range(K)] + [
+                    ("when", ("fn", "last", [], []), ("fn", "push", [("str", "L"), ("fn", "line_number", [], [])], [])),
+                    ("when", ("fn", "last", [], []), ("fn", "push", [("str", "L2"), ("fn", "line_number", [], [])], [])),
+                ]
+                yield {"scan": w, "comps": comps, "mode": "AND"}, make_rows(lay, []), {"kind": "last()->push x2", "K": K, "p": K, "fire": [], "window": w, "layout": lay, "n": 0}
     # random second-order cases: two controls, onmatch before the control
     r = random.Random(f"{seed}:C13:extra")
     n_extra = 3000 if tier == "quick" else 60000
